@@ -103,14 +103,17 @@ def run(ck, F):
             continue
         if not f['params'] or 'ipr::String' not in f['params'][0]['t']:
             continue
-        inserting = [p for p in cons[f['id']] if p.get('origin', '').startswith('unified')]
-        ok = bool(inserting) and all('word_if_known(' in p['when'] and '!' in p['when'] for p in inserting)
+        # every path that inserts a dynamic node either follows a failed search of the reserved-word table, or is taken for no
+        # reserved word (its guards on the spelling are evaluated on every row of the table)
+        import words
+        routes = words.spelling_routes(F, f['id'], keyrule.key_opaque(F))
+        bad = [(w, [x.decode('utf-8', 'replace') for x in ps[:3]]) for w, ps, _searched in routes if ps]
         inst = contracts.short(contracts.fn_qname(f['id'])) + '(const String &)'
-        ck.check(RS, inst, ok,
-                 f'{f["id"]} inserts a dynamic {contracts.short(ret)} without first looking the spelling up among the reserved '
-                 f'words, which are themselves {contracts.short(ret)} nodes (sibling get_logogram does): the spelling of a '
-                 'built-in gets a second node', loc=f['loc'], fn=f['id'],
-                 detail=[p['when'][:120] for p in inserting])
+        ck.check(RS, inst, bool(routes) and not bad,
+                 f'{f["id"]} inserts a dynamic {contracts.short(ret)} for the reserved spelling(s) {[b[1] for b in bad]} without first looking '
+                 f'the spelling up among the reserved words, which are themselves {contracts.short(ret)} nodes (path: {[b[0][:100] for b in bad]}): '
+                 'the spelling of a built-in gets a second node', loc=f['loc'], fn=f['id'],
+                 detail=[w[:120] for w, _ps, _s in routes])
 
     # ---------------------------------------------------------------- special constants
     RK = ck.rule('C04.constants', 'get_linkage("C"/"C++"), get_label(default) and get_this resolve to the process-wide '
